@@ -143,7 +143,15 @@ Under `MarksOK` (non-zero, disjoint mark bits) and for any entry mark with the v
 the rendered rules followed by ANY `rest` behave as: if the rule matches the packet, its action
 (`actionOutcome`: allow/pass set their bit and RETURN, deny sets its bit and DROPs/REJECTs, log
 continues); otherwise `rest` runs; in both cases on a mark that differs from the entry mark only in
-the two scratch bits. -/
+the two scratch bits.
+
+NOTE on the entry-mark hypotheses `hmA`/`hmP`/`hmD` (verdict bits clear): they are a real
+restriction, not a formality.  Policy chains are always entered with the accept and pass bits
+clear, but PROFILE chains are reachable with the pass bit still set by the last tier — this is
+C09's finding `profile_pass_stale_false` (Props/C09.lean; known finding `profile-pass-stale-mark`):
+a pass rule in a profile then returns without matching.  The C09 composition therefore uses the
+per-action form (`render_exact_le2` / `RuleExact`: only the bit of the rule's own action must be
+clear) and excludes pass rules in profiles. -/
 theorem render_exact_partial (cfg : Cfg) (ctx : Ctx) (env : Env) (call : String → Mark → Result) (pkt : Packet)
     (setName : String → String) (r : Policy.Rule) (rest : List Netfilter.Rule) (mark : Mark) (act : RuleAction)
     (mo : MarksOK cfg) (henv : EnvCatchAll env)
